@@ -649,3 +649,15 @@ func under(t types.Type) types.Type {
 	}
 	return t.Underlying()
 }
+
+// share binds a large term to a fresh constant so that later terms built from it stay small
+// (stores into maps, struct field updates and literals nest the previous value several times).
+func (ex *Exec) share(st *State, v Val) Val {
+	if len(v.T) < 160 || st == nil {
+		return v
+	}
+	n := ex.fresh("t", v.S)
+	st.assume(eq(n, v.T))
+	v.T = n
+	return v
+}
